@@ -46,7 +46,7 @@ def run_native(trace, keep_path=None):
         if keep_path is None:
             try: os.remove(path)
             except OSError: pass
-    if r.returncode != 0: raise ReplayError(f'native driver exit {r.returncode}: {r.stderr[-800:]}')
+    if r.returncode != 0: raise ReplayError(f'native driver exit {r.returncode}: {r.stderr[-1500:]} | last stdout: {r.stdout[-300:]}')
     return [json.loads(l) for l in r.stdout.splitlines() if l.startswith('{')]
 
 
@@ -83,7 +83,7 @@ def build_trace(cfg, log, model, kind='managed'):
     nadv = 0
     for st in acts:
         a = st['act']
-        if a[0] == 'get':
+        if a[0] in ('get', 'uget'):
             callno[a[1]] = callno.get(a[1], 0) + 1; cur[a[1]] = callno[a[1]]
         exp = [e for e in st['env'] if e[0] == 'timer' and e[2] == 'expired']
         if exp:
@@ -95,10 +95,21 @@ def build_trace(cfg, log, model, kind='managed'):
     for si, st in enumerate(acts):
         a = [conv(x) for x in st['act']]
         step = {'act': a, 'env': [[conv(x) for x in e] for e in st['env']]}
-        step['thread'] = a[1] if a[0] in ('get', 'poll', 'cancel', 'drop', 'take', 'step') else 'C'
+        step['thread'] = a[1] if a[0] in ('get', 'poll', 'cancel', 'drop', 'take', 'step', 'uget', 'uadd') else 'C'
         if cfg.get('thread_mode') and (si < nprefix or st.get('probe')): step['atomic'] = True
         if any(e[0] == 'timer' and e[2] == 'expired' for e in st['env']):
             step['advance_ns'] = STEP_NS; done += 1
+        if a[0] == 'uget':
+            callno[a[1]] = callno.get(a[1], 0) + 1
+            v = cfg['get_variants'][a[2]]
+            if isinstance(v, (list, tuple)):
+                if v[1] is None: step['variant'] = [v[0], None]
+                elif v[1] == 'zero': step['variant'] = [v[0], 0]
+                else:
+                    k = expiry.get((a[1], callno[a[1]], 'wait'))
+                    step['variant'] = [v[0], BIG_NS if k is None else max(1, (k - done)) * STEP_NS]
+            else: step['variant'] = v
+        if a[0] == 'uadd': step['variant'] = cfg['add_variants'][a[2]]
         if a[0] == 'get':
             callno[a[1]] = callno.get(a[1], 0) + 1
             tv = variants[a[2]] if a[2] < len(variants) else None
@@ -121,6 +132,12 @@ def build_trace(cfg, log, model, kind='managed'):
         else:
             ks = [k for (t, c, kk), k in expiry.items() if kk == kind_]
             pt.append(STEP_NS if ks else BIG_NS)     # pool-level: one value for all calls (may be unrealisable)
+    if kind == 'unmanaged':
+        ct = cfg.get('config_timeout')
+        ks = [k for (t, c, kk), k in expiry.items() if kk == 'wait']
+        return {'kind': kind, 'pool': {'ctor': cfg.get('ctor', 'new'), 'max_size': int(model.get('max_size', 1)), 'initial': cfg.get('initial', 0),
+                                       'config_timeout': None if ct is None else (0 if ct == 'zero' else (STEP_NS if ks else BIG_NS)), 'runtime': bool(cfg.get('runtime', True))},
+                'actions': steps, 'cfg': cfg, 'threads': bool(cfg.get('thread_mode'))}
     return {'kind': kind, 'pool': {'max_size': int(model.get('max_size', 1)), 'lifo': bool(lifo), 'timeouts': pt,
                                    'runtime': bool(cfg.get('runtime', True)), 'hooks': [list(h) for h in cfg.get('hooks', [])]},
             'actions': steps, 'cfg': cfg, 'threads': bool(cfg.get('thread_mode'))}
@@ -154,21 +171,24 @@ def norm_event_native(e):
 def run_engine(prog, trace):
     """execute the trace in the engine (concrete max_size), following the scripted outcomes.
     -> (observations list, violations raised by the oracles along the way)"""
-    from . import w_managed
+    from . import w_managed, w_unmanaged
     from .core import I
     cfg = dict(trace['cfg'])
+    um = trace.get('kind') == 'unmanaged'
     cfg['hooks'] = tuple(tuple(h) for h in cfg.get('hooks', ()))
     cfg['timeout_variants'] = [None if v is None else tuple(v) for v in (cfg.get('timeout_variants') or [None])]
     cfg['pool_timeouts'] = tuple(cfg.get('pool_timeouts') or (None, None, None))
     cfg['env'] = {k: (tuple(v) if isinstance(v, list) else v) for k, v in cfg.get('env', {}).items()}
     cfg['ctl'] = tuple(cfg.get('ctl', ())); cfg['oracles'] = tuple(cfg.get('oracles', ()))
     cfg['resize_targets'] = tuple(cfg.get('resize_targets', (0, 1, 2, 3)))
-    cfg['lifo'] = trace['pool']['lifo']; cfg['max_size_concrete'] = trace['pool']['max_size']
-    tasks = sorted({s['act'][1] for s in trace['actions'] if s['act'][0] in ('get', 'poll', 'cancel', 'drop', 'take')})
+    cfg['lifo'] = trace['pool'].get('lifo', False); cfg['max_size_concrete'] = trace['pool']['max_size']
+    if um:
+        cfg['get_variants'] = [tuple(v) if isinstance(v, list) else v for v in cfg.get('get_variants', ['get'])]
+    tasks = sorted({s['act'][1] for s in trace['actions'] if s['act'][0] in ('get', 'poll', 'cancel', 'drop', 'take', 'uget', 'uadd', 'step') and s['act'][1] != 'C'})
     cfg['task_names'] = tasks or ['T1']
     cfg['probe'] = False
     nprefix = len(cfg.get('prefix') or ()); cfg['prefix'] = ()
-    B = w_managed.ManagedBSE(prog, cfg)
+    B = w_unmanaged.UnmanagedBSE(prog, cfg) if um else w_managed.ManagedBSE(prog, cfg)
     init = B.init_states()
     if len(init) != 1: raise ReplayError('engine: ambiguous initial state')
     st = init[0]
@@ -192,6 +212,11 @@ def run_engine(prog, trace):
         res = list(last.get('res') or ['ok'])
         a = tuple(last.get('op') or a)
         if res[0] == 'at_point': res = ['at_point', str(res[1])]
+        elif um:
+            if res[:2] in (['ok', 'object'], ['ok', 'removed']): res = res[:2] + [last['oid']]
+            elif res[0] == 'err' and last.get('back'): res = ['err', res[1], last['back']]
+            elif a[0] == 'status' and res[0] == 'ok': S = res[1]; res = ['ok', [S.f[i].v for i in range(4)]]
+            elif a[0] in ('drop', 'close') and res[0] == 'ok': res = ['ok']
         elif res[:2] == ['ok', 'object']:
             met = w_managed._find_metrics(s2.heap[last['oroot']]); mt = B.W.env.metrics_tuple(met)
             res = ['ok', 'object', last['oid'], norm_metrics_engine(mt)]
@@ -217,16 +242,19 @@ def compare(native, engine):
         if n.get('mismatch'): return f'step {n["i"]}: native script mismatch: {n["mismatch"]}'
         if n.get('script_left'): return f'step {n["i"]}: native run did not consume {n["script_left"]} scripted outcome(s)'
         nr = n['res']; er = e['res']
-        if nr[:2] == ['ok', 'object']:
+        if nr[:2] == ['ok', 'object'] and len(nr) > 3:
             nr = nr[:3] + [{'recycled': nr[3]['recycled'], 'count': nr[3]['count']}]
         if json.loads(json.dumps(nr)) != json.loads(json.dumps(er)): return f'step {n["i"]}: result native {nr} vs engine {er}'
         ne = [norm_event_native(x) for x in n['events']]; ee = json.loads(json.dumps(e['events']))
         if ne != ee: return f'step {n["i"]}: events native {ne} vs engine {ee}'
         if 'status' in e and e['status'] is not None:
+            if e['status'] == 'panic' or n['status'] == 'panic':
+                if e['status'] != n['status']: return f'step {n["i"]}: observation panics natively / in the engine only'
+                continue
             if n['status'] != e['status']: return f'step {n["i"]}: status() native {n["status"]} vs engine {e["status"]}'
-            for k in ('permits', 'closed', 'size', 'max_size', 'users'):
-                if n['snap'][k] != e['snap'][k]: return f'step {n["i"]}: snapshot.{k} native {n["snap"][k]} vs engine {e["snap"][k]}'
-            if len(n['snap']['idle']) != e['snap']['idle']: return f'step {n["i"]}: idle count native {len(n["snap"]["idle"])} vs engine {e["snap"]["idle"]}'
+            for k in e['snap']:
+                if k != 'idle' and n['snap'][k] != e['snap'][k]: return f'step {n["i"]}: snapshot.{k} native {n["snap"][k]} vs engine {e["snap"][k]}'
+            if 'idle' in e['snap'] and len(n['snap']['idle']) != e['snap']['idle']: return f'step {n["i"]}: idle count native {len(n["snap"]["idle"])} vs engine {e["snap"]["idle"]}'
     return None
 
 
@@ -244,7 +272,7 @@ def confirm(pid, v, blobs=None):
     """replay the counterexample natively; 'confirmed' iff the real crate shows, step by step, exactly the observations
     from which the oracle derived the violation (and the oracle flags it again on the concrete run)"""
     try:
-        trace = build_trace(v['cfg'], list(v['trace']) + list(v.get('probe_log', [])), v.get('model', {}))
+        trace = build_trace(v['cfg'], list(v['trace']) + list(v.get('probe_log', [])), v.get('model', {}), kind=v.get('kind', 'managed'))
         h = hashlib.sha1(json.dumps(trace, sort_keys=True, default=str).encode()).hexdigest()[:10]
         path = os.path.join(HERE, 'replays', f'{pid}-{h}.json'); os.makedirs(os.path.dirname(path), exist_ok=True)
         trace['violation'] = {'property': pid, 'what': v['what']}
